@@ -5,7 +5,7 @@ use serde_json::{json, Value};
 use vcore::gen::{Env, Index};
 use vcore::runner::{esc, replay_tape, tape_from_json, Failure, Harness, Stats};
 use vcore::spec::{Header, Model};
-use vrun::props::{c01_candidates, c01_check_header, c01_random_prop, c02_prop, c06_prop, Exec};
+use vrun::props::{c01_candidates, c01_check_header, c01_random_prop, c02_prop, c03_sig_prop, c06_prop, Exec};
 use vrun::{Fixture, ProcOut, RunOut};
 
 pub struct Entry {
@@ -231,6 +231,34 @@ fn main() {
                     else {
                         c06_prop(&ifaces[0].model, &ix, &ex, &tape, &mut st)
                     }
+                },
+            );
+        }
+        "C03" => {
+            let cases = h.tier.pick(60_000u64, 1_500_000);
+            let per = (cases / k as u64).max(1);
+            let with_params: usize = ifaces.iter().map(|i| i.model.spec.decls.iter().filter(|d| !d.params.is_empty()).count()).sum();
+            h.check(
+                "c03.generated",
+                &format!("the c03.signatures property over {} generated declaration sets: {} declarations with 1-10 parameters of random types (all 15 parameter types, commands and queries, sync and async), {} proptest tapes per set", k, with_params, per),
+                false,
+                |h, st| {
+                    for (ii, iface) in ifaces.iter().enumerate() {
+                        let ex = exec_of(&ENTRIES[ii]);
+                        let sigs: Vec<usize> = (0..iface.model.spec.decls.len()).collect();
+                        if let Some(mut f) = h.tape_search("c03.generated", per, 160, st, |tape, st| c03_sig_prop(&iface.model, &ex, &sigs, tape, st)) {
+                            f.case["spec"] = iface.spec_json.clone();
+                            f.message = format!("interface {}: {}", iface.model.spec.name, f.message);
+                            return Some(f);
+                        }
+                    }
+                    None
+                },
+                |case| {
+                    let ex = exec_of(&ENTRIES[0]);
+                    let sigs: Vec<usize> = (0..ifaces[0].model.spec.decls.len()).collect();
+                    let tape = tape_from_json(&case["tape"]);
+                    c03_sig_prop(&ifaces[0].model, &ex, &sigs, &tape, &mut Stats::default())
                 },
             );
         }
